@@ -440,6 +440,8 @@ class Family:
                 else:
                     te = self._table_expr(value, st, loc)
                     if te is None:
+                        if attr not in st.tables:
+                            continue      # not one of the sensor tables (e.g. a lookup cache)
                         raise AnalysisError("assignment to %s is not understood: %s (%s)" % (attr, norm(node), fn.loc(node)))
                     st.tables[attr] = tuple(r for _, rows in te for r in rows)
                     st.versions[attr] = st.versions.get(attr, 0) + 1
